@@ -24,6 +24,8 @@ Grammar of the scalar slice (everything else is refused)
   statements   docstring | x = e | x op= e | self.a = e | self.a op= e (a a declared scalar attribute)
                | population.sort(key=lambda ind: ind.fitness, reverse=True) (as a unit: the model's sort_desc)
                | if / elif / else over scalar statements | for x in <list of individuals> over scalar statements
+               | l = list() / [] and l.append(x) for a local list of individuals
+               | self._rank1update(best, e) in StrategyActiveOnePlusLambda.update: e is the result (captured argument)
                | self.lambda_ = e where lambda_ is the property whose setter stores the value and calls
                  _compute_lambda_parameters() (exact shape checked; the callee's body is translated in place)
   expressions  non-negative int and float constants (a decimal literal a.b is kz(ab) / kz(10^k): correctly rounded in
@@ -338,6 +340,8 @@ class Tr(object):
             return "(if %s then %s else %s)" % (c, a, b), ta
         if isinstance(e, ast.Call):
             return self.call(e)
+        if isinstance(e, ast.List) and not e.elts:
+            return "(@nil _)", "list ind"
         if isinstance(e, ast.ListComp):
             # [x for x in l if c]  =  filter
             g = e.generators
@@ -348,8 +352,7 @@ class Tr(object):
             if tit != "list ind":
                 refuse(e, "comprehension over a %s" % tit)
             x = g[0].target.id
-            if x in self.locals or x in self.opaque_locals:
-                refuse(e, "comprehension variable shadows a local")
+            old = self.locals.get(x)
             self.locals[x] = "ind"
             self.in_fun += 1
             try:
@@ -357,6 +360,8 @@ class Tr(object):
             finally:
                 self.in_fun -= 1
                 del self.locals[x]
+                if old is not None:
+                    self.locals[x] = old
             if t != "bool":
                 refuse(e, "filter condition of type %s" % t)
             return "(filter (fun v_%s => %s) %s)" % (x, c, it), "list ind"
@@ -380,6 +385,8 @@ class Tr(object):
         if d == "hasattr" and len(e.args) == 2 and dotted(e.args[0]) == "self.parent" and isinstance(e.args[1], ast.Constant) \
                 and e.args[1].value == "fitness" and self.spec.get("hasattr_parent_fitness") and not self.mod.rebinds("hasattr"):
             return self.spec["hasattr_parent_fitness"], "bool"
+        if d == "list" and not e.args and not e.keywords and not self.mod.rebinds("list"):
+            return "(@nil _)", "list ind"
         if d == "float" and len(e.args) == 1 and not self.mod.rebinds("float"):
             c, t = self.ex(e.args[0])
             return self.toT(c, t, e.args[0]), "T"
@@ -405,8 +412,7 @@ class Tr(object):
             if tit != "list ind":
                 refuse(e, "sum over a %s" % tit)
             x = g.generators[0].target.id
-            if x in self.locals or x in self.opaque_locals:
-                refuse(e, "generator variable shadows a local")
+            old = self.locals.get(x)        # Python 3: the variable is local to the generator, as in `fun v_x => ..`
             self.locals[x] = "ind"
             self.in_fun += 1
             try:
@@ -414,6 +420,8 @@ class Tr(object):
             finally:
                 self.in_fun -= 1
                 del self.locals[x]
+                if old is not None:
+                    self.locals[x] = old
             if t != "bool":
                 refuse(e, "sum of %s values (only a count of booleans is in the grammar)" % t)
             return "(count_if (fun v_%s => %s) %s)" % (x, c, it), "nat"
@@ -554,6 +562,15 @@ class Tr(object):
                 self.bind(v, "sort_desc (fun a b => %s Op %s %s) %s" % (self.spec.get("cmp", ("lex_le", "lex_lt"))[1],
                                                                       fit % "a", fit % "b", v))
                 return
+            if isinstance(c.func, ast.Attribute) and c.func.attr == "append" and isinstance(c.func.value, ast.Name) \
+                    and self.locals.get(c.func.value.id) == "list ind" and len(c.args) == 1 and not c.keywords \
+                    and c.func.value.id not in self.spec["params"]:
+                code, t = self.ex(c.args[0])
+                if t != "ind" or self.pending:
+                    refuse(s, "append of a %s" % t)
+                v = "v_" + c.func.value.id
+                self.bind(v, "(%s ++ [%s])" % (v, code))
+                return
             cap = self.spec.get("capture")
             if cap and dotted(c.func) == "self." + cap[0] and not c.keywords and len(c.args) == cap[1] \
                     and not any(isinstance(a, ast.Starred) for a in c.args):
@@ -597,9 +614,13 @@ class Tr(object):
             for l in sb.lines:
                 if not l.startswith("let "):
                     refuse(node, "subscript inside a branch / loop body")
-                n = l.split()[1]
-                if n not in names:
-                    names.append(n)
+                if l.startswith("let '("):
+                    ns = l[len("let '("):l.index(")")].split(", ")
+                else:
+                    ns = [l.split()[1]]
+                for n in ns:
+                    if n not in names:
+                        names.append(n)
         out = []
         for n in names:
             if n.startswith("v_"):
@@ -656,8 +677,8 @@ class Tr(object):
         if tit != "list ind":
             refuse(s, "for over a %s" % tit)
         x = s.target.id
-        if x in self.locals or x in self.opaque_locals:
-            refuse(s, "loop variable shadows a local")
+        if x in self.locals:
+            refuse(s, "loop variable overwrites a scalar local")
         a = self.sub()
         a.locals[x] = "ind"
         a.in_fun += 1
